@@ -40,6 +40,39 @@ def lex_tokens(M, elems, limit=400):
         out.append((tok.variant, pay))
         if len(out) > limit: raise Panic('lexer produced more than %d tokens (possible hang)' % limit)
 
+SPELL = {'BraceClose': '}', 'BraceOpen': '{', 'BracketClose': ']', 'BracketOpen': '[', 'Colon': ':', 'Comma': ',', 'Div': '/', 'Dot': '.', 'Equals': '=', 'GreaterThan': '>', 'LessThan': '<', 'Mod': '%', 'Mul': '*',
+         'ParenClose': ')', 'ParenOpen': '(', 'Sub': '-', 'Sum': '+', 'AmpAmp': '&&', 'BangEquals': '!=', 'ColonEquals': ':=', 'DashGreaterThan': '->', 'DivEquals': '/=', 'DotDot': '..', 'EqualsEquals': '==',
+         'GreaterThanEquals': '>=', 'LessThanEquals': '<=', 'ModEquals': '%=', 'MulEquals': '*=', 'PipePipe': '||', 'SubEquals': '-=', 'SumEquals': '+=', 'EqualsEqualsEquals': '===', 'BangEqualsEquals': '!=='}
+KW = {'Break', 'Continue', 'Else', 'False', 'Fn', 'For', 'If', 'In', 'Null', 'Return', 'True', 'While'}
+def real_kinds(toks):
+    out = []
+    for t in toks:
+        if t[0] == 'eof': break
+        if t[0] == 'lexerr': out.append('lexerr'); break
+        nm = ENUMS['Token'][t[0]]
+        if nm == 'Ident': out.append('ident')
+        elif nm == 'IntLiteral': out.append('int')
+        elif nm == 'StrLiteral': out.append('str')
+        elif nm == 'InterpStrLiteral': out.append('istr')
+        elif nm == 'StmtEnd': out.append('end')
+        elif nm in KW: out.append('kw:' + nm.lower())
+        elif nm in SPELL: out.append('sym:' + SPELL[nm])
+        else: return None
+    return out
+def ref_kinds(txt_b):
+    from ref import front
+    try: txt = txt_b.decode('utf-8')
+    except UnicodeDecodeError: return None
+    try: toks = front.lex(txt, lazy=True)
+    except front.FrontUnspecified: return None
+    out = []
+    for t in toks:
+        if t.k == 'lexerr': out.append('lexerr'); break
+        if t.k in ('ident', 'int', 'str', 'istr', 'end'): out.append(t.k)
+        elif t.k == 'kw': out.append('kw:' + t.v)
+        else: out.append('sym:' + t.v)
+    return out
+
 def streams_differ(M, ta, tb):
     """returns None if equal for every model of the path condition, else a description (with a model in M.last_model)"""
     if len(ta) != len(tb): return 'different number of tokens: %d vs %d' % (len(ta), len(tb))
@@ -90,6 +123,13 @@ def pair_job(name, parts_a, parts_b, relation='equal'):
         if d is not None:
             mdl = M.last_model or m
             obs['viol'] = {'what': d, 'a': ev(mdl, a), 'b': ev(mdl, b)}
+            return obs
+        # both texts against the reference lexer (kinds only; on the path witness): catches a layout rule that is wrong in the same way in both
+        for txt_b, toks in ((bytes(obs['a']), ta), (bytes(obs['b']), tb)):
+            rk = ref_kinds(txt_b); gk = real_kinds(toks)
+            if rk is not None and gk is not None and rk != gk:
+                obs['viol'] = {'what': 'token kinds differ from the reference lexer: %r vs %r' % (gk[:40], rk[:40]), 'a': obs['a'], 'b': obs['b'], 'against_ref': list(txt_b)}
+                break
         return obs
     def post(rows, res, binary, wd):
         for r in rows:
@@ -101,6 +141,16 @@ def pair_job(name, parts_a, parts_b, relation='equal'):
             # positions move with the layout; a quoted echo of the source spelling (e.g. of an over-long integer literal) is not compared
             norm = lambda e: re.sub(rb"'[0-9_]+'", b"'N'", re.sub(rb':\d+:\d+:', b':', e))
             same = na[0] == nb[0] and na[1] == nb[1] and norm(na[2]) == norm(nb[2])
+            if o['viol'] and o['viol'].get('against_ref'):
+                from ref import sem
+                t = bytes(o['viol']['against_ref']); nt = F.native_run(binary, t, wd)
+                try: rr = sem.run_concrete(t.decode('utf-8'))
+                except UnicodeDecodeError: rr = ('unspecified',)
+                if rr[0] != 'unspecified' and (nt[0] != (0 if rr[0] == 'ok' else 103) or (rr[0] in ('ok', 'error') and nt[1] != rr[1])):
+                    res['replay_ok'] += 1
+                    res['violations'].append({'aspect': 'layout', 'role': 'layout:%s' % name.split('/')[0], 'what': '%s | %r | native %r, reference %r' % (o['viol']['what'], t[:80], (nt[0], (nt[1] + nt[2])[:100]), (rr[0], rr[1][:60])), 'script': t, 'ext': 'sd'})
+                else: res['inconclusive'].append('token kinds differ from the reference lexer for %r but the native run agrees with the reference semantics' % t[:60])
+                continue
             if o['viol']:
                 if not same or na[0] == 101 or nb[0] == 101:
                     res['replay_ok'] += 1
@@ -146,6 +196,12 @@ def jobs_for(tier, seed):
         if tier == 'thorough' or i % 3 == 0:
             a2 = left + [tok.encode()] + ws('u', 1) + comment('c', k) + [b'\n\n'] + ws('v', 1) + [suf.encode()]
             J.append(pair_job('break-comment-after/%d:%s' % (i, tok), a2, b))
+    # a line break after `}` ends the statement whatever follows: `else` on the next line, identifiers that merely start like a keyword
+    for j, (pre, suf) in enumerate([('if false {\n}', 'else {\n    print(1)\n}\n'), ('n := 0\nif true {\n    n = 1\n}', 'else_count := 5\nprint(else_count)\n'), ('while false {\n}', 'elsewhere := 1\nprint(elsewhere)\n'),
+                                    ('x := 1', 'iffy := 2\nprint(iffy)\n'), ('f := fn () {\n}', 'format := 3\nprint(format)\n'), ('x := [1]', 'inner := 4\nprint(inner)\n'), ('x := 1', 'truth := 5\nprint(truth)\n')]):
+        a = [pre.encode()] + ws('u', k) + [b'\n'] + ws('v', k) + [suf.encode()]
+        b = [pre.encode(), b' ; ', suf.encode()]
+        J.append(pair_job('break-before-word/%d' % j, a, b))
     # (b) holes at token gaps of repository scripts
     tests = [t for t in H.load_tests() if t['code'] == 0 and 20 < len(t['src']) < 400]
     rng = random.Random(seed * 31 + 5)
